@@ -7,5 +7,7 @@ type syntaxQueryParamLiteral struct {
 func (l *syntaxQueryParamLiteral) compute(
 	_ interface{}, _ []interface{}) []interface{} {
 
-	return l.literal
+	// The comparators write their verdicts into the list they are given:
+	// hand out a copy so that the parsed tree stays read-only.
+	return []interface{}{l.literal[0]}
 }
